@@ -29,6 +29,14 @@ CHECKS.update({
    ref="4 C10", note="policies sample the read-size histories at byte level; exhaustive only at chunk granularity on the model",
    tech="TLA+ read-history models (Workflow/WorkflowFast) model-checked by TLC; chunk policies replayed through the io.Reader into the real workflows; traces validated by TLC (TraceWorkflow)"),
 })
+STAT_NOTE = "trusts RealFn.class (erfc, Q(a,x), ln, exact longest-run probabilities), TLC, the Go driver; large inputs go through a Go spec proxy that is tied to the TLA+ definitions on every small vector of the same run"
+STAT_TECH = "TLA+ executable definitions (Def) and implementation-shaped step machines (Alg) model-checked equal by TLC on every enumerated sequence; TLC-generated vectors with real-layer P/Q replayed into every Go entry point; large seeded inputs validated by TLC (TraceStats)"
+CHECKS.update({
+ "C01": dict(cat="model_checking", text="FreqTests.tla: Alg = Def model-checked on every bit sequence of 8..10 (thorough 12) bits for all five tests and parameters incl. byte fast paths; every such sequence plus mid-size generator sequences (100..20000 bits, 10 modes) replayed into all entry points against PQ(Def) at 1e-8; 10^6-bit (thorough 10^5..10^7) seeded inputs judged by TLC from proxy summaries.", ref="4 C01", note=STAT_NOTE, tech=STAT_TECH),
+ "C02": dict(cat="model_checking", text="RunTests.tla: runs total exhaustive at 8..11 (13) bits; runs distribution and longest run through generator descriptors at 100..20000 bits incl. 6271/6272/6273 and long-run modes (Alg = Def checked by TLC on each), regime 3 at 749999/750000/10^6 bits via TLC-judged proxy summaries; class-probability tables checked against exact combinatorial probabilities (recurrence validated by brute force for m<=10).", ref="4 C02", note=STAT_NOTE, tech=STAT_TECH),
+ "C03": dict(cat="model_checking", text="CorrTests.tla: binary derivative k in {3,7,15}, autocorrelation d in {1,2,8,16,32}, cumulative sums forward/backward; exhaustive at 8..11 (13) bits, generator sequences 100..20000 bits incl. extreme excursions, 10^6-bit inputs via TLC-judged summaries; series limits modelled with Go's truncating division.", ref="4 C03", note=STAT_NOTE + "; cusum series limits follow the truncating integer division of the reference implementations", tech=STAT_TECH),
+ "C04": dict(cat="model_checking", text="AlgTests.tla: rowEchelon as written = log2|row space| for every matrix sequence at M=2,3(,4); Berlekamp-Massey as written with Go array bounds = brute-force least recurrence for every block of m=4..10(12) plus the InBounds invariant (negative control: CAP=m violates); 32x32 matrices of every rank and m=500/1000/5000 blocks of known complexity through TLC-validated lemmas; Maurer table machine = definitional distances; 10^6-bit inputs via independent proxies judged by TLC. Any panic of an entry point is a violation.", ref="4 C04", note=STAT_NOTE + "; rank/LC lemmas are checked by TLC only at small sizes", tech=STAT_TECH),
+})
 PENDING = {}
 
 def main():
